@@ -1,8 +1,9 @@
-import SamVerif.Model.Fmt
+import SamVerif.Model.FmtFull
+import Driver.C08Legacy
 import Driver.Util
 /-! Protocol `fmt-expr` (C08), model side.
 `E <width> <hex text>`: lex the fragment text (driver-side character lexer + token grouping + the
-model's `mergeMinInt`), `parseE` → T0, `printE` → token sequence, re-lex, `parseE` → T1, `RT T0`.
+model's `mergeMinInt`), `parseE` → T0, `printE` → token sequence, re-lex, `parseE` → T1, and whether `regroup T0 = T0` (printed as `rt=`).
 `S <width> <hex text>`: a single string-literal token through `parseStr` / `printStr`.
 Answers: `<T0>;<tokens>;<T1|rerr>;rt=<0|1>` or `perr`. The width is irrelevant to the model (token level).
 
@@ -12,7 +13,8 @@ Opaque units of the model and the concrete shapes the driver recognises for them
 `kwIf`   `if w { w } else { w }`          `kwMatch`  `match w { U ( w|_ ) -> w , … }`
 `lam`    `( x , … ) ->`                                                      (w = a single word) -/
 namespace Driver.C08
-open SamVerif.Fmt Driver
+open SamVerif.Fmt (BinOp UOp RawTok mergeMinInt lexStr validEscape unescapeQuotes printStr)
+open SamVerif.FmtFull Driver
 
 def ops : List (String × BinOp) :=
   [("*", .mul), ("/", .div), ("%", .mod), ("+", .plus), ("-", .minus), ("::", .concat),
@@ -90,77 +92,53 @@ def commaList (ok : String → Bool) : List String → Option (List String × Li
     if ok w then (commaList ok rest).bind fun (ws, r) => if ws.isEmpty then none else some (w :: ws, r) else none
   | _ => none
 
-/-- `U ( w|_ ) -> w ,` cases of a match, up to the closing brace. -/
-partial def matchCases : List String → Option (List (String × String) × List String)
-  | "}" :: rest => some ([], rest)
-  | u :: "(" :: v :: ")" :: "->" :: b :: rest =>
-    if isUpperId u && (isLowerId v || v == "_") && isWordAtom b then
-      let pat := if v == "_" then "_" else s!"(pid {v})"
-      let one := (s!"{u} ( {v} ) -> {b} ,", s!"(case (pvariant {u} (ptuple {pat})) {b})")
-      let rest' := match rest with | "," :: r => r | r => r
-      (matchCases rest').map fun (cs, r) => (one :: cs, r)
-    else none
-  | _ => none
-
-def endsExpr : Option Tok → Bool
-  | some (.atom _) | some .rp | some (.post _ _) => true
-  | _ => false
+def isTypeWord (s : String) : Bool := s == "int" || s == "bool" || s == "unit" || isUpperId s
 
 /-- words → model tokens. -/
 partial def group : List String → List Tok → Tab → Option (List Tok × Tab)
   | [], acc, tab => some (acc, tab)
   | w :: rest, acc, tab =>
     let push (t : Tok) (r : List String) (tb : Tab) := group r (acc ++ [t]) tb
-    if w == "if" then
-      match rest with
-      | c :: "{" :: x :: "}" :: "else" :: "{" :: y :: "}" :: r =>
-        if isWordAtom c && isWordAtom x && isWordAtom y then
-          let (tb, i) := intern tab ⟨s!"if {c} \{ {x} } else \{ {y} }", s!"(if {c} (block (final {x})) (block (final {y})))", ""⟩
-          push (.kwIf i) r tb
+    -- match patterns: `U ( v ) ->`, `U ->`, `_ ->`
+    let patOf : Option (String × String × List String) :=
+      match w, rest with
+      | "_", "->" :: r => some ("_ ->", "_", r)
+      | u, "(" :: v :: ")" :: "->" :: r =>
+        if isUpperId u && (isLowerId v || v == "_") then
+          some (s!"{u} ( {v} ) ->", s!"(pvariant {u} (ptuple {if v == "_" then "_" else s!"(pid {v})"}))", r)
         else none
-      | _ => none
-    else if w == "match" then
-      match rest with
-      | m :: "{" :: r =>
-        if !isWordAtom m then none else
-        match matchCases r with
-        | some (cs, r') =>
-          if cs.isEmpty then none else
-          let (tb, i) := intern tab ⟨s!"match {m} \{ " ++ " ".intercalate (cs.map (·.1)) ++ " }",
-            s!"(match {m} " ++ " ".intercalate (cs.map (·.2)) ++ ")", ""⟩
-          push (.kwMatch i) r' tb
-        | none => none
-      | _ => none
+      | u, "->" :: r => if isUpperId u then some (s!"{u} ->", s!"(pvariant {u})", r) else none
+      | _, _ => none
+    match patOf with
+    | some (text, dmp, r) =>
+      let (tb, i) := intern tab ⟨text, dmp, ""⟩
+      push (.pat i) r tb
+    | none =>
+    if w == "if" then push .kwIf rest tab
+    else if w == "else" then push .kwElse rest tab
+    else if w == "match" then push .kwMatch rest tab
+    else if w == "{" then push .lb rest tab
+    else if w == "}" then push .rb rest tab
+    else if w == "," then push .comma rest tab
     else if w == "(" then
-      -- lambda?
       match commaList isLowerId rest with
       | some (ps, "->" :: r) =>
         let (tb, i) := intern tab ⟨"( " ++ " , ".intercalate ps ++ (if ps.isEmpty then ") ->" else " ) ->"),
           "(lambda (params" ++ String.join (ps.map fun p => s!" ({p})") ++ ") ", ")"⟩
         push (.lam i) r tb
-      | _ =>
-        if endsExpr acc.getLast? then
-          match commaList isWordAtom rest with
-          | some (as, r) =>
-            let (tb, i) := intern tab ⟨"( " ++ " , ".intercalate as ++ (if as.isEmpty then ")" else " )"),
-              "(call ", String.join (as.map fun a => " " ++ a) ++ ")"⟩
-            push (.post i false) r tb
-          | none => none
-        else push .lp rest tab
+      | _ => push .lp rest tab
     else if w == "." then
       match rest with
+      | n :: "<" :: t :: ">" :: r =>
+        if isWordAtom n && !isNum n && isTypeWord t then
+          let td := if isUpperId t then s!"(tid {t})" else t
+          let (tb, i) := intern tab ⟨s!". {n} < {t} >", "(. ", s!" {n} (targs {td}))"⟩
+          push (.post i false) r tb
+        else none
       | n :: r =>
         if isWordAtom n && !isNum n then
           let (tb, i) := intern tab ⟨s!". {n}", "(. ", s!" {n})"⟩
           push (.post i true) r tb
-        else none
-      | _ => none
-    else if w == "{" then
-      match rest with
-      | x :: "}" :: r =>
-        if isWordAtom x then
-          let (tb, i) := intern tab ⟨s!"\{ {x} }", s!"(block (final {x}))", ""⟩
-          push (.atom i) r tb
         else none
       | _ => none
     else if w == ")" then push .rp rest tab
@@ -173,22 +151,36 @@ partial def group : List String → List Tok → Tab → Option (List Tok × Tab
           push (.atom i) rest tb
         else none
 
-def tokText (tab : Tab) : Tok → String
-  | .lp => "(" | .rp => ")" | .bang => "!"
-  | .op o => opText o
-  | .atom a | .post a _ | .kwIf a | .kwMatch a | .lam a => ((tab[a]?).map (·.text)).getD "?"
-
 def ent (tab : Tab) (i : Nat) : Entry := (tab[i]?).getD ⟨"?", "?", "?"⟩
 
+def tokText (tab : Tab) : Tok → String
+  | .lp => "(" | .rp => ")" | .bang => "!" | .comma => "," | .lb => "{" | .rb => "}"
+  | .kwIf => "if" | .kwElse => "else" | .kwMatch => "match"
+  | .op o => opText o
+  | .atom a | .post a _ | .pat a | .lam a => (ent tab a).text
+
+mutual
 partial def dump (tab : Tab) : Expr → String
   | .atom a => (ent tab a).pre
-  | .ifElse k => (ent tab k).pre
-  | .matchE k => (ent tab k).pre
+  | .tuple e es => "(tuple " ++ dump tab e ++ dumpArgs tab es ++ ")"
+  | .block e => "(block (final " ++ dump tab e ++ "))"
   | .post e p _ => (ent tab p).pre ++ dump tab e ++ (ent tab p).suf
-  | .lambda k b => (ent tab k).pre ++ dump tab b ++ (ent tab k).suf
+  | .call0 f => "(call " ++ dump tab f ++ ")"
+  | .call f args => "(call " ++ dump tab f ++ dumpArgs tab args ++ ")"
   | .unary .not e => "(! " ++ dump tab e ++ ")"
   | .unary .neg e => "(neg " ++ dump tab e ++ ")"
   | .binary o l r => "(" ++ opText o ++ " " ++ dump tab l ++ " " ++ dump tab r ++ ")"
+  | .ifElse c t e =>
+    "(if " ++ dump tab c ++ " (block (final " ++ dump tab t ++ ")) (block (final " ++ dump tab e ++ ")))"
+  | .matchE m cs => "(match " ++ dump tab m ++ dumpCases tab cs ++ ")"
+  | .lambda k b => (ent tab k).pre ++ dump tab b ++ (ent tab k).suf
+partial def dumpArgs (tab : Tab) : Args → String
+  | .one e => " " ++ dump tab e
+  | .cons e rest => " " ++ dump tab e ++ dumpArgs tab rest
+partial def dumpCases (tab : Tab) : Cases → String
+  | .one k b => " (case " ++ (ent tab k).pre ++ " " ++ dump tab b ++ ")"
+  | .cons k b rest => " (case " ++ (ent tab k).pre ++ " " ++ dump tab b ++ ")" ++ dumpCases tab rest
+end
 
 def textOfHex (h : String) : String := (String.fromUTF8? (ByteArray.mk (bytesOfHex h).toArray)).getD ""
 
@@ -211,7 +203,15 @@ def stepE (text : String) : String :=
           match parseE ts2 with
           | none => "rerr"
           | some e2 => dump tab2 e2
-      s!"{dump tab e};{outText};{t1};rt={if RT e then 1 else 0}"
+      -- the proved prediction of the re-parsed tree (`roundtrip_expr_total`)
+      let predicted := dump tab (regroup e)
+      let main3 := s!"{dump tab e};{outText};{t1}"
+      let rt := regroup e == e
+      -- the round-2 model (`Model/Fmt.lean`, kept for C09b / C13b) on the same text, where its lexer applies
+      let legacy := Driver.C08Legacy.stepE text
+      let v2 := if legacy == "perr" then "skip"
+        else if legacy == main3 ++ (if rt then ";rt=1" else ";rt=0") then "ok" else legacy
+      s!"{main3};rt={if rt then 1 else 0};rg={if predicted == t1 then "ok" else predicted};v2={v2}"
 
 def hexOfString (s : String) : String := hexOfBytes s.toUTF8.toList
 
